@@ -134,6 +134,8 @@ where
                     writeln!(w, "{l}").unwrap();
                 }
                 writeln!(w, "END").unwrap();
+                // a later case may abort the process: nothing finished may be lost
+                w.flush().unwrap();
                 g.2.clear();
                 g.1.clear();
             }
